@@ -802,6 +802,76 @@ def _try(f):
         return e
 
 
+def run_generation_case(ctx, tag: str, kind: str, old_gen: int, new_gen: int, recs: list, write_with_creator: bool,
+                        probe: dict, requests: list):
+    """a library is (re-)created at a path that held nothing (old_gen 0) or a library of generation old_gen, as a library of
+    generation new_gen (overwrite=True; the header is the default one or the legacy magic); the records are stored by the creating
+    object itself or by an object opened afterwards; every reader - the writer, and a fresh object - must get them back, decoded
+    by the codec the NEW file announces"""
+    path = ctx.scratch / f"{tag}.{'mlib' if kind == 'mol' else 'clib'}"
+    cls = cl.lib_class(kind)
+    replay = {"shape": "re-created-as-another-generation", "kind": kind, "old_generation": old_gen, "new_generation": new_gen,
+              "write_with_creator": write_with_creator, "records": [" ".join(cl.record_tokens(r)) for r in recs]}
+    ctx.case(json.dumps(replay, sort_keys=True), nontrivial=old_gen != new_gen)
+    ctx.count(f"session-shape:generation-{old_gen}->{new_gen}")
+    if path.exists():
+        path.unlink()
+    objs = [cl.build(r) for r in recs]
+    inps = [cl.snapshot(o) for o in objs]
+    reads = []
+    with cl.hard_timeout(cl.SESSION_TIMEOUT * 2, "re-creation"):
+        if old_gen:
+            cl.new_library_file(kind, path, old_gen)
+            cl.store(kind, path, [("old", cl.build(recs[0]))])
+        kw = {"h1": cl.V1_MAGIC} if new_gen == 1 else {}
+        creator = cls(path, readonly=False, overwrite=bool(old_gen), **kw)
+        writer = creator if write_with_creator else cls(path, readonly=False)
+        with writer.writing(timeout=cl.SESSION_TIMEOUT):
+            for i, o in enumerate(objs):
+                writer[f"k{i}"] = o
+        with writer.reading(timeout=cl.SESSION_TIMEOUT):
+            for i in range(len(objs)):
+                reads.append(("the object that stored them", i, _try(lambda: writer[f"k{i}"])))
+    head = path.read_bytes()[:16]
+    announced = 1 if head.startswith(cl.V1_MAGIC) else 2
+    fresh = cl.load(kind, path, [f"k{i}" for i in range(len(objs))])
+    for i in range(len(objs)):
+        reads.append(("a fresh library object", i, fresh.get(f"k{i}")))
+    sch = probe["orders"][(kind, announced)]["ser"]
+    stoks = schema_tokens(sch, (probe["atom_dflt"], probe["bond_dflt"]))
+    reported = False
+    if announced != new_gen:
+        reported = True
+        ctx.violation("C01:recreated-library-announces-the-wrong-generation", f"{kind}: asked for generation {new_gen}, the file header is {head!r}", replay)
+    for who, i, res in reads:
+        line = " ".join([kind] + stoks + cl.record_tokens(inps[i]))
+        if isinstance(res, Exception) or res is None:
+            if not reported:
+                reported = True
+                ctx.violation("C01:recreated-library-unreadable-under-announced-codec",
+                              f"{kind}: path held {'nothing' if not old_gen else f'a generation-{old_gen} library'}, re-created as generation {new_gen} "
+                              f"(records stored by {'the creating object' if write_with_creator else 'an object opened afterwards'}): k{i} read by {who}: "
+                              f"{type(res).__name__}: {res}", replay)
+            requests.append((line, None, None, replay, None))
+            continue
+        bs = cl.snapshot(res)
+        d = [x for x in cl.compare(inps[i], bs) if x[0] != "list-read-back-as-tuple"]
+        if d and not reported:
+            reported = True
+            ctx.violation("C01:recreated-library-unreadable-under-announced-codec", f"{kind}: generation {old_gen} -> {new_gen}: k{i} read by {who}: {d[0][1]}", replay)
+        requests.append((line, None, cl.canon_nan(cl.record_tokens(bs)), replay, None))
+
+
+def generation_shapes(ctx, probe: dict, requests: list, ev: dict):
+    n = 0
+    for kind in ("mol", "ens"):
+        for old_gen, new_gen in ((1, 2), (2, 1), (0, 1), (0, 2), (1, 1), (2, 2)):
+            for creator in (True, False):
+                recs = [gen_record(ctx.rng, kind, 1, True, ev) for _ in range(ctx.rng.range(1, 3))]   # legacy-schema records fit both
+                run_generation_case(ctx, f"gen{n}", kind, old_gen, new_gen, recs, creator, probe, requests)
+                n += 1
+
+
 def two_object_shapes(ctx, probe: dict, requests: list, ev: dict):
     n = 0
     for kind in ("mol", "ens"):
@@ -1244,6 +1314,8 @@ def run(ctx):
                 "reference map after every step and after closing (keys of the file, fresh object, stored bytes); (g) iteration "
                 "(items(), keys()+[], iter()+[], values()) with lookups of earlier / later / the same / mixed keys between two steps, "
                 "equal-size and unequal-size records, reading and writing sessions; "
+                "(h) a library (re-)created at a path that held nothing / a library of the same / of the other generation, records stored "
+                "by the creating object or by one opened afterwards, read by the writer and by a fresh object; "
                 "(e) two library objects on one path: a "
                 "long-lived object stores and reads, another object re-creates the file (overwrite=True) under the same keys or "
                 "appends, the long-lived object reads again. Stored objects are built plainly or (half of the stream, all "
@@ -1325,6 +1397,7 @@ def run(ctx):
     # ---- session shapes: interleaved reads and writes on one long-lived library object ----
     session_shapes(ctx, probe, requests, ev)
     two_object_shapes(ctx, probe, requests, ev)
+    generation_shapes(ctx, probe, requests, ev)
     several_library_shapes(ctx, probe, requests, ev)
     iteration_shapes(ctx, probe, requests, ev)
 
@@ -1392,6 +1465,17 @@ def replay(ctx, path):
         for v in bad:
             print("violation:", v["kind"], v["what"])
         print("replayed:", "differs" if bad else "every read gave what was stored in that library")
+        return 1 if bad else 0
+    if "old_generation" in r:
+        _ = ctx.scratch
+        from harness.gen import Schema
+        recs = [cl.record_from_tokens(r["kind"], t.split(" ")) for t in r["records"]]
+        run_generation_case(ctx, "replay_gen", r["kind"], int(r["old_generation"]), int(r["new_generation"]), recs, bool(r["write_with_creator"]),
+                            Schema.cached_probe(), [])
+        bad = [v for v in ctx.violations if v["kind"] != KNOWN_KIND]
+        for v in bad:
+            print("violation:", v["kind"], v["what"])
+        print("re-creation:", "differs" if bad else "every reader got the stored objects back")
         return 1 if bad else 0
     if "records2" in r:
         _ = ctx.scratch
